@@ -268,6 +268,12 @@ func TestPropSuperfluid(t *testing.T) {
 					if err != nil {
 						rt.Fatalf("GetSuperfluidOSMOTokens: %v", err)
 					}
+					// what the module itself believes to be delegated through this account - the accumulated amount under the
+					// staking marker, which every epoch refresh turns into the stake - must be the sum of the locks connected to
+					// it. Slashed validators included: a slash takes the same amount off a lock and off its marker.
+					if acc, aerr := sfk.GetTotalSyntheticAssetsLocked(ctx, fmt.Sprintf("%s/superbonding/%s", share, val)); aerr != nil || !acc.Equal(sum) {
+						rt.Fatalf("intermediary account (%s, %s): the staking-marker accumulation the refresh reads is %s (%v), the locks connected to the account hold %s (validator slashed %d times) [history %v]", share, val[len(val)-4:], acc, aerr, sum, slashed[val], hist)
+					}
 					ia := sftypes.NewSuperfluidIntermediaryAccount(share, val, 0)
 					valAddr, _ := sdk.ValAddressFromBech32(val)
 					tokens := osmomath.ZeroInt()
